@@ -28,7 +28,13 @@ from ufl.algorithms.estimate_degrees import estimate_total_polynomial_degree
 from ufl.algorithms.formdata import FormData
 from ufl.algorithms.remove_complex_nodes import remove_complex_nodes
 from ufl.algorithms.remove_component_tensors import remove_component_tensors
-from ufl.classes import Form, Jacobian, JacobianDeterminant, JacobianInverse
+from ufl.classes import (
+    CoordinateDerivative,
+    Form,
+    Jacobian,
+    JacobianDeterminant,
+    JacobianInverse,
+)
 
 
 def attach_estimated_degrees(form):
@@ -214,6 +220,18 @@ def compute_form_data(
                 form = apply_geometry_lowering(form, preserve_geometry_types)
                 form = apply_derivatives(form)
 
+    # A coordinate derivative differentiates the integrand including the
+    # integral scaling factor, with all geometry expressed through the
+    # coordinate field. Without pullbacks, integral scaling and geometry
+    # lowering the terms coming from the measure and from un-lowered
+    # geometric quantities would silently be dropped.
+    if not (
+        do_apply_function_pullbacks and do_apply_integral_scaling and do_apply_geometry_lowering
+    ) and any(isinstance(itg.integrand(), CoordinateDerivative) for itg in form.integrals()):
+        raise ValueError(
+            "Coordinate derivatives require do_apply_function_pullbacks, "
+            "do_apply_integral_scaling and do_apply_geometry_lowering."
+        )
     form = apply_coordinate_derivatives(form)
 
     # If in real mode, remove any complex nodes introduced during form processing.
